@@ -23,8 +23,8 @@ class Rec:
         return f'Rec({self.f}, {self.args}, {self.kwargs})'
 
 
-# parameter names as FunctionNode._resolve_args counts them: everything before *args (a **kw parameter included when there is no *args)
-SIGS = {'vmod.f': [], 'vmod.g': [], 'vmod.h': ['a', 'b'], 'vmod.k': ['x', 'kw']}
+# names of the positional parameters of each target (what integer argument keys may address)
+SIGS = {'vmod.f': [], 'vmod.g': [], 'vmod.h': ['a', 'b'], 'vmod.k': ['x']}
 
 
 def install_vmod():
